@@ -15,8 +15,9 @@ from pathlib import Path
 from . import tlc as tlcmod
 
 ROOT = Path(__file__).resolve().parent.parent
-EVIDENCE_DIR = ROOT / "evidence"
-REPLAY_DIR = ROOT / "out" / "replay"
+# mutation self-tests point these elsewhere so that they never touch the real evidence
+EVIDENCE_DIR = Path(os.environ.get("VERIF_EVIDENCE_DIR", ROOT / "evidence"))
+REPLAY_DIR = Path(os.environ.get("VERIF_REPLAY_DIR", ROOT / "out" / "replay"))
 FINDINGS_FILE = ROOT / "known_findings.txt"
 REPO = Path(os.environ.get("VERIF_REPO", "/repo"))
 
